@@ -37,7 +37,7 @@ def run_tlc(module, cfg=None, env=None, workers='auto', timeout=600, extra=None,
         jopts = e.get('JAVA_TOOL_OPTIONS', '')
         if deque:
             jopts += ' -Dtlc2.tool.queue.IStateQueue=StateDeque'
-        jopts += ' -Xss64m'
+        jopts += ' -Xss64m -Djava.io.tmpdir=' + scratch      # SANY unpacks its standard modules into java.io.tmpdir
         if heap:
             jopts += ' -Xmx' + heap
         e['JAVA_TOOL_OPTIONS'] = jopts.strip()
